@@ -862,6 +862,45 @@ func (b *c13Builder) incomingLegacy(idx uint64, expiry uint32) {
 	b.spec = append(b.spec, fmt.Sprintf("SPEC c label=%s kind=ic two=1 legacy=1 idx=%d expiry=%d", l, idx, expiry))
 }
 
+// incomingAnchor adds an incoming HTLC on OUR commitment of an anchor
+// (zero-fee second level) channel: the success resolver offers the signed
+// second-level success tx to the sweeper, waits for the spend of the htlc
+// output, checks that the spender created the expected second-level output,
+// checkpoints outputIncubating, offers that output (CSV) to the sweeper and
+// waits for its spend.
+func (b *c13Builder) incomingAnchor(idx uint64, expiry uint32) {
+	pre, hash := c13Preimage(byte(idx))
+	op := wire.OutPoint{Hash: b.commitHash, Index: uint32(idx)}
+	l := fmt.Sprintf("h%d", idx)
+	b.labels[op] = l
+	b.confHtlcs = append(b.confHtlcs, channeldb.HTLC{
+		Incoming: true, Amt: 10_000_000, HtlcIndex: idx,
+		OutputIndex: int32(idx), RefundTimeout: expiry, RHash: hash,
+	})
+	// the output our (aggregated) success spend creates: see confirmOurs
+	out := &wire.TxOut{Value: 1000, PkScript: []byte{0xaa, byte(len(l))}}
+	successTx := &wire.MsgTx{
+		Version: 2,
+		TxIn: []*wire.TxIn{{PreviousOutPoint: op,
+			Witness: [][]byte{{}, {0x30}, {0x31}, {}, {0x51}}}},
+		TxOut: []*wire.TxOut{out},
+	}
+	sd := testSignDesc
+	sd.Output = out
+	// the resolver's report names the static claim outpoint
+	claim := wire.OutPoint{Hash: successTx.TxHash(), Index: 0}
+	b.labels[claim] = l + "/2"
+	b.inRes = append(b.inRes, lnwallet.IncomingHtlcResolution{
+		SignedSuccessTx: successTx,
+		SignDetails:     testSignDetails,
+		ClaimOutpoint:   claim,
+		SweepSignDesc:   sd,
+		CsvDelay:        4,
+	})
+	b.preimages[l] = pre
+	b.spec = append(b.spec, fmt.Sprintf("SPEC c label=%s kind=ic two=1 idx=%d expiry=%d", l, idx, expiry))
+}
+
 func c13Dust(idx uint64, incoming bool) channeldb.HTLC {
 	_, hash := c13Preimage(byte(idx))
 	return channeldb.HTLC{
@@ -1570,7 +1609,8 @@ func c13StepClose() c13Step {
 // c13Unilateral builds a local / remote / pending-remote force close scenario.
 func c13Unilateral(name string, kind string, near, hold bool, rng *rand.Rand) *c13Scenario {
 	legacy := kind == "legacy"
-	if legacy {
+	anchorIn := kind == "anchorin"
+	if legacy || anchorIn {
 		kind = "local"
 	}
 	local := kind == "local"
@@ -1589,6 +1629,13 @@ func c13Unilateral(name string, kind string, near, hold bool, rng *rand.Rand) *c
 	if legacy {
 		// h15: incoming htlc on our own commitment of a pre-anchor channel
 		b.incomingLegacy(15, 175)
+	}
+	if anchorIn {
+		// h16: incoming htlc on our own commitment of an anchor channel
+		// (two-stage success through the sweeper); h17: the same, but the
+		// preimage never becomes known: given up at its expiry.
+		b.incomingAnchor(16, 175)
+		b.incomingAnchor(17, 155)
 	}
 	if !local {
 		// h13: incoming, we learn the preimage and claim; h14: incoming, never
@@ -1751,6 +1798,13 @@ func c13Unilateral(name string, kind string, near, hold bool, rng *rand.Rand) *c
 		scn.realNursery = true
 		scn.txs = b.txs
 	}
+	if anchorIn {
+		// preimage -> contest resolver swaps to the success resolver, which
+		// offers the second-level success tx; it confirms; checkpoint
+		// (outputIncubating); the CSV-locked output is offered and swept.
+		groups = append(groups, []c13Step{c13StepPreimage("h16", b.preimages["h16"]),
+			c13StepConfirmable("h16"), c13StepBlocks(4), c13StepConfirmable("h16/2")})
+	}
 	if near {
 		groups[0] = []c13Step{c13StepHeight(104), c13StepConfirmable("h12")}
 		if local {
@@ -1860,6 +1914,7 @@ func c13Scenarios(seed int64) []*c13Scenario {
 	return []*c13Scenario{
 		localB,
 		c13Unilateral("localL", "legacy", false, false, rng),
+		c13Unilateral("localS", "anchorin", false, false, rng),
 		c13Unilateral("local", "local", true, false, rng),
 		c13Unilateral("localU", "local", false, false, rng),
 		c13Unilateral("remote", "remote", false, false, rng),
